@@ -100,6 +100,7 @@ func (w *world) fail(v *simrt.Violation) {
 func (busEngine) run(ctx *simrt.Ctx) *simrt.Violation {
 	sc := ctx.Sc
 	q := queue.New("channel")
+	preClient := q.Client() // used only after the final close (phase 4)
 	w := &world{ctx: ctx, seen: map[string]map[int64]int{}, stop: make(chan struct{})}
 	sched := simrt.NewSched(ctx)
 	sched.Patience = 20 * time.Second
@@ -340,6 +341,39 @@ func (busEngine) run(ctx *simrt.Ctx) *simrt.Violation {
 			d = dead3
 		}
 		return ctx.Violate("blocks-after-close", "requester-or-closer-stuck", "after the queue was closed some tasks never returned: %s", d)
+	}
+	// phase 4: the queue is closed. A client that turns to a topic nobody has
+	// used before (topics are created on first use) must be refused as well:
+	// the send or the wait returns an error, nothing blocks.
+	select {
+	case <-closed:
+	case <-time.After(20 * time.Second):
+		return ctx.Violate("blocks-after-close", "queue-close-stuck", "queue.Close did not return within 20 virtual seconds after every task had returned")
+	}
+	for k, late := range []queue.Client{preClient, q.Client()} {
+		tpc := fmt.Sprintf("never-used-%d-%d", sc.Run%5, k)
+		res := make(chan string, 1)
+		go func() {
+			msg := late.NewMessage(tpc, 77, "late")
+			if err := late.Send(msg, true); err != nil {
+				res <- ""
+				return
+			}
+			if _, err := late.Wait(msg); err != nil {
+				res <- ""
+				return
+			}
+			res <- "a synchronous request to " + tpc + " after queue.Close was accepted and answered"
+		}()
+		select {
+		case bad := <-res:
+			if bad != "" {
+				return ctx.Violate("wrong-reply", "reply-after-queue-close", "%s", bad)
+			}
+			ctx.Probe("late_request_to_unused_topic_refused")
+		case <-time.After(30 * time.Second):
+			return ctx.Violate("blocks-after-close", "send-or-wait-on-unused-topic", "after queue.Close a synchronous request to topic %q (never used before) was accepted and its wait did not return within 30 virtual seconds (client created %s the close)", tpc, []string{"before", "after"}[k])
+		}
 	}
 	return nil
 }
